@@ -18,13 +18,19 @@ From BV Require Import Model.LaxSem Model.Restart Model.Pool.
 Import ListNotations.
 Open Scope Z_scope.
 
-Inductive msg := MAck (j p : Z) | MReady (j p tag : Z).
+Inductive msg := MAck (j p : Z) | MReady (j p : Z) (ok : bool) (tag : Z).
 
 (* the value the task of job [j] computes (abstract tag, distinct per job) *)
 Definition tag_of (j : Z) : Z := j.
 
+(* what the task of job j does: returns its value, or raises (for the jobs listed in [bad]) *)
+Definition task_ok (bad : list Z) (j : Z) : bool := negb (memZ j bad).
+Definition outcome_of (bad : list Z) (j : Z) : payload :=
+  if task_ok bad j then PValue (tag_of j) else PExc (tag_of j).
+
 Record sys := mksys {
   par : pool;
+  bad : list Z;               (* the jobs whose task raises an exception (fixed from the start) *)
   todo : nat;                 (* apply_async calls the client has still to make *)
   taskq : list Z;             (* Pool._taskqueue: submitted, not yet written to the pipe *)
   inq : list Z;               (* tasks in the pipe to the workers *)
@@ -49,46 +55,47 @@ Definition sys_step (y : sys) (a : sstep) : option sys :=
     | O => None
     | S k =>
       match step (par y) (EApply None None None None) with
-      | (s', RNone) => Some (mksys s' k (taskq y ++ [Z.of_nat (length (jobs (par y)))]) (inq y) (wk y) (outq y))
-      | (s', RRefused) => Some (mksys s' k (taskq y) (inq y) (wk y) (outq y))   (* after close(): no job *)
+      | (s', RNone) => Some (mksys s' (bad y) k (taskq y ++ [Z.of_nat (length (jobs (par y)))]) (inq y) (wk y) (outq y))
+      | (s', RRefused) => Some (mksys s' (bad y) k (taskq y) (inq y) (wk y) (outq y))   (* after close(): no job *)
       | _ => None                                                               (* no free slot: the client waits *)
       end
     end
   | SPut =>
     match taskq y with
     | [] => None
-    | j :: r => Some (mksys (par y) (todo y) r (inq y ++ [j]) (wk y) (outq y))
+    | j :: r => Some (mksys (par y) (bad y) (todo y) r (inq y ++ [j]) (wk y) (outq y))
     end
   | STake i =>
     match nth_error (wk y) i, inq y with
     | Some None, j :: r =>
-      Some (mksys (par y) (todo y) (taskq y) r (upd_nth i (fun _ => Some j) (wk y))
+      Some (mksys (par y) (bad y) (todo y) (taskq y) r (upd_nth i (fun _ => Some j) (wk y))
                   (outq y ++ [MAck j (worker_pid y i)]))
     | _, _ => None
     end
   | SFinish i =>
     match nth_error (wk y) i with
     | Some (Some j) =>
-      Some (mksys (par y) (todo y) (taskq y) (inq y) (upd_nth i (fun _ => None) (wk y))
-                  (outq y ++ [MReady j (worker_pid y i) (tag_of j)]))
+      Some (mksys (par y) (bad y) (todo y) (taskq y) (inq y) (upd_nth i (fun _ => None) (wk y))
+                  (outq y ++ [MReady j (worker_pid y i) (task_ok (bad y) j) (tag_of j)]))
     | _ => None
     end
   | SRecv =>
     match outq y with
     | [] => None
     | MAck j p :: r =>
-      Some (mksys (fst (step (par y) (EAck j None p))) (todo y) (taskq y) (inq y) (wk y) r)
-    | MReady j p t :: r =>
-      Some (mksys (fst (step (par y) (EReady j None true t))) (todo y) (taskq y) (inq y) (wk y) r)
+      Some (mksys (fst (step (par y) (EAck j None p))) (bad y) (todo y) (taskq y) (inq y) (wk y) r)
+    | MReady j p ok t :: r =>
+      Some (mksys (fst (step (par y) (EReady j None ok t))) (bad y) (todo y) (taskq y) (inq y) (wk y) r)
     end
   | SClose =>
     if pstate (par y) =? 0
-    then Some (mksys (fst (step (par y) EClose)) (todo y) (taskq y) (inq y) (wk y) (outq y))
+    then Some (mksys (fst (step (par y) EClose)) (bad y) (todo y) (taskq y) (inq y) (wk y) (outq y))
     else None
   end.
 
-Definition sinit (c : config) (n : nat) : sys :=
-  mksys (init c) n [] [] (repeat None (Z.to_nat (c_n c))) [].
+Definition sinit_bad (c : config) (n : nat) (bad : list Z) : sys :=
+  mksys (init c) bad n [] [] (repeat None (Z.to_nat (c_n c))) [].
+Definition sinit (c : config) (n : nat) : sys := sinit_bad c n [].
 
 Fixpoint srun (y : sys) (sched : list sstep) : option sys :=
   match sched with
@@ -109,14 +116,14 @@ Fixpoint events_of (y : sys) (sched : list sstep) : list event :=
        | SSubmit, _ => [EApply None None None None]
        | SClose, _ => [EClose]
        | SRecv, MAck j p :: _ => [EAck j None p]
-       | SRecv, MReady j p t :: _ => [EReady j None true t]
+       | SRecv, MReady j p ok t :: _ => [EReady j None ok t]
        | _, _ => []
        end) ++ events_of y' r
     end
   end.
 
 Definition readys (q : list msg) : list Z :=
-  flat_map (fun m => match m with MReady j _ _ => [j] | MAck _ _ => [] end) q.
+  flat_map (fun m => match m with MReady j _ _ _ => [j] | MAck _ _ => [] end) q.
 
 (* where the unresolved jobs are *)
 Definition tokens (y : sys) : list Z := taskq y ++ inq y ++ somes (wk y) ++ readys (outq y).
@@ -172,14 +179,14 @@ Definition event_eqb (a b : event) : bool :=
   | _, _ => false
   end.
 
-Definition sys_case := (config * nat * list sstep * list event * list obs * bool)%type.
+Definition sys_case := (config * nat * list Z * list sstep * list event * list obs * bool)%type.
 
 Definition check_sys_case (c : sys_case) : Z :=
-  let '(cfg, n, sched, evs, os, maximal) := c in
-  match srun (sinit cfg n) sched with
+  let '(cfg, n, bad, sched, evs, os, maximal) := c in
+  match srun (sinit_bad cfg n bad) sched with
   | None => 7001         (* the implementation took a step that is not enabled in the model *)
   | Some y =>
-    if negb (list_eqb event_eqb (events_of (sinit cfg n) sched) evs) then 7002
+    if negb (list_eqb event_eqb (events_of (sinit_bad cfg n bad) sched) evs) then 7002
     else if maximal && negb (Nat.eqb (work y) 0) then 7003   (* nothing but close() can move, yet the model has work left *)
     else if negb maximal && Nat.eqb (work y) 0 then 7004     (* work left where the model has none *)
     else Pool.check_case (cfg, evs, os)
